@@ -157,7 +157,7 @@ func init() {
 		Name:  "PAIR-update",
 		Doc:   "every exported *SearchParams method that may write the list or its pairs (computed from its effect summary) calls update() on the same list after its last write on every path to a return; update() stores the list's serialization into url.query, conditioned only on the nil-ness of url, the emptiness of the serialization and the nil-ness of url.query",
 		Props: []string{"C12"},
-		Floor: 7,
+		Floor: 4,
 		Run: func(c *Ctx, s *core.Sink) {
 			e := BuildEff(c)
 			upd := c.P.Func("url", "SearchParams", "update")
@@ -372,7 +372,7 @@ func init() {
 		Name:  "PAIR-handle",
 		Doc:   "a list object attached to an existing URL is never replaced: every store to Url.searchParams of a URL that was not allocated in the same function is guarded by `searchParams == nil` (directly or at every call site of an unguarded helper); the search setter truncates the existing list when the query is cleared and otherwise re-initialises it in place; init truncates before it appends",
 		Props: []string{"C12"},
-		Floor: 5,
+		Floor: 3,
 		Run: func(c *Ctx, s *core.Sink) {
 			e := BuildEff(c)
 			guarded := func(f *ssa.Function, x ssa.Value, blk *ssa.BasicBlock) bool {
@@ -615,7 +615,7 @@ func init() {
 		Name:  "PAIR-group",
 		Doc:   "cache groups of Url ({port, decodedPort}; {host, isIPv4, isIPv6} if such fields exist): every store to one field is accompanied in the same block by stores to the others on the same object; an accessor decides 'present' on the primary's nil-ness, never on a cache value; address-kind accessors derive from the host",
 		Props: []string{"C19"},
-		Floor: 8,
+		Floor: 5,
 		Run: func(c *Ctx, s *core.Sink) {
 			urlT := c.P.Type("url", "Url")
 			if urlT == nil {
